@@ -19,6 +19,13 @@ func init() {
 
 // seq|race <init> <clients> <events>   (see ucops.RunUC; clients prefixed "@" start lazily)
 func exec(op string, args []string) []string {
+	if op == "cleaner" {
+		var out []string
+		if txt, ok := core.Guard(func() { out = runCleaner(args) }); !ok {
+			return []string{"panic:" + txt}
+		}
+		return out
+	}
 	if (op != "seq" && op != "race" && op != "fault") || len(args) != 3 {
 		return []string{"bad-op"}
 	}
@@ -49,6 +56,31 @@ func gen(rng *rand.Rand, tier core.Tier, emit core.Emit) {
 		n = 3000
 	}
 	durs := []int64{1 * sec, 10 * sec, 60 * sec, 180 * sec, 600 * sec, 3600 * sec, 7200 * sec}
+	// the real cleaner component over several passes of ONE instance: retention shorter / equal / longer than the interval,
+	// servers and instances written at various ages, a pass whose scan hits a storage error followed by healthy ones
+	nc := 12
+	if tier == core.Thorough {
+		nc = 300
+	}
+	for c := 0; c < nc; c++ {
+		ret := durs[rng.Intn(len(durs))]
+		iv := durs[rng.Intn(len(durs))]
+		var init []string
+		for i := 0; i < 1+rng.Intn(4); i++ {
+			init = append(init, fmt.Sprintf("report|%s|10481|%s|%s|%d", servers[i].addr, servers[i].id, hexs("s"), i))
+			if rng.Intn(2) == 0 {
+				init = append(init, fmt.Sprintf("adv%d", []int64{ret / 2, ret, ret + 256, iv, iv / 2, 256}[rng.Intn(6)]))
+			}
+		}
+		var script []string
+		for i := 0; i < 1+rng.Intn(3); i++ {
+			script = append(script, []string{"tick", "tick", "faulttick"}[rng.Intn(3)])
+		}
+		if c%2 == 0 {
+			script = append([]string{"faulttick"}, append(script, "tick")...) // a faulted pass first, a healthy one last
+		}
+		emit("cleaner", fmt.Sprint(ret), fmt.Sprint(iv), strings.Join(init, ","), strings.Join(script, "+"))
+	}
 	// a storage fault during one removal of the pass must not spare the other outdated servers
 	for ns := 2; ns <= 4; ns++ {
 		var init []string
